@@ -114,6 +114,8 @@ struct Res {
     sarif_checked: usize,
     sarif_faults: usize,
     sarif_benign: usize,
+    unreadable_include_runs: usize,
+    default_level_points: usize,
     fp: u64,
     sim_ns: i64,
     nontrivial: bool,
@@ -358,6 +360,52 @@ fn one(runner: &Runner, seed: u64, i: usize, keys: usize, lattice_budget: usize)
             }
         }
     }
+    // a file that is only included resolves but cannot be read: the report the parser makes of
+    // that has no location, so no filter may hold it back, whatever the level
+    {
+        let named: BTreeSet<usize> = b.project.named.iter().copied().collect();
+        let reachable_incs: BTreeSet<String> = b.project.files.iter().flat_map(|f| f.includes.iter().map(|s| s.trim_start_matches("./").to_string())).collect();
+        let included_only: Vec<String> =
+            b.project.files.iter().enumerate().filter(|(k, f)| !named.contains(k) && reachable_incs.contains(&f.path)).map(|(_, f)| f.path.clone()).collect();
+        if !included_only.is_empty() {
+            let target = r.pick(&included_only).clone();
+            let mut c = b.case.clone();
+            match r.usize(4) {
+                0 => corrupt_file(&mut c.world, &target, &Corruption::BadUtf8(0)),
+                1 => c.plan.faults.push(Fault { call: "open".into(), errno: libc::EACCES, occurrence: 0, suffix: target.clone() }),
+                2 => c.plan.faults.push(Fault { call: "read".into(), errno: libc::EIO, occurrence: 0, suffix: target.clone() }),
+                _ => c.plan.faults.push(Fault { call: "open".into(), errno: libc::EMFILE, occurrence: 0, suffix: target.clone() }),
+            }
+            let lvl = *r.pick(&["info", "warning", "error"]);
+            for a in c.argv.iter_mut() {
+                if a == "info" {
+                    *a = lvl.to_string();
+                }
+            }
+            if let Ok(o) = runner.run(&c) {
+                res.runs += 1;
+                res.unreadable_include_runs += 1;
+                let consumed = o.events.iter().any(|e| e.path.ends_with(&target) && (e.call == "open" || e.call == "read"));
+                if !crashed(&o) && consumed {
+                    let out = parse_stdout(&o.stdout);
+                    let told = out.diags.iter().any(|d| d.severity == "error" && d.message.contains(&target));
+                    if !told {
+                        violation(
+                            "lost-report:parse-stage:unreadable-include".into(),
+                            format!("`{target}` is included, resolves and cannot be read; no error-level report names it (level {lvl}); displayed: {:?}", out.diags.iter().map(|d| d.message.clone()).take(4).collect::<Vec<_>>()),
+                            &c,
+                            &mut res,
+                        );
+                        return res;
+                    }
+                    if let Some((sig, d)) = contract(&o, &out, true, false) {
+                        violation(format!("{sig}:unreadable-include"), d, &c, &mut res);
+                        return res;
+                    }
+                }
+            }
+        }
+    }
     // the option lattice over the ids of the unfiltered run (same hash key)
     let ids: Vec<String> = {
         let s: BTreeSet<String> = out0.diags.iter().filter_map(|d| d.code.clone()).collect();
@@ -387,6 +435,11 @@ fn one(runner: &Runner, seed: u64, i: usize, keys: usize, lattice_budget: usize)
         let mut opts = Opts::base();
         opts.curve = Some(b.curve.clone());
         opts.level = Some(if r.chance(1, 3) { level.to_uppercase() } else { level.clone() });
+        // the documented default level is WARNING, with or without --verbose
+        if level == "warning" && r.chance(1, 2) {
+            opts.level = None;
+            res.default_level_points += 1;
+        }
         opts.allow = allow.clone();
         // an id that never occurs must not matter
         if r.chance(1, 4) {
@@ -508,6 +561,8 @@ pub fn run(env: &Env) -> i32 {
             ("pass-stage report", stages.get("pass").copied().unwrap_or(0)),
             ("project with two or more analysis orders", results.iter().filter(|r| r.orders >= 2).count()),
             ("SARIF create/write fault fired", results.iter().map(|r| r.sarif_faults).sum::<usize>()),
+            ("lattice point without --level", results.iter().map(|r| r.default_level_points).sum::<usize>()),
+            ("unreadable included-only file", results.iter().map(|r| r.unreadable_include_runs).sum::<usize>()),
             ("SARIF short or interrupted write fired", results.iter().map(|r| r.sarif_benign).sum::<usize>()),
         ],
     );
